@@ -2,7 +2,7 @@
 import ast
 import z3
 from .values import *
-from .engine import HObj, HList, HDict, key_of
+from .engine import HObj, HList, HSeqList, HDict, key_of
 from . import builtins_ as B
 
 
@@ -48,6 +48,8 @@ class ExprMixin:
         if real in src.funcs:
             fn, path = src.funcs[real]
             return SV('func', FuncVal(node=fn, name=real, module=path))
+        if real in getattr(self, 'spec_ufs', {}):
+            return SV('func', FuncVal(builtin='uf:' + real, name=real))
         if real in B.SPEC_BUILTINS:
             return SV('func', FuncVal(builtin=real, name=real))
         if real in self.spec_funcs:
@@ -97,6 +99,10 @@ class ExprMixin:
             raise Unsupported('% string formatting')
         if op == 'Add' and (a.k == 'tuple' and b.k == 'tuple'):
             return SV('tuple', a.t + b.t)
+        if op == 'Add' and ((a.k == 'list' and isinstance(self.st.heap[a.t], HSeqList)) or (b.k == 'list' and isinstance(self.st.heap[b.t], HSeqList))
+                            or (a.k == 'seq' and b.k in ('seq', 'list')) or (b.k == 'seq' and a.k == 'list')):
+            x = a.x if a.k == 'seq' else (b.x if b.k == 'seq' else None)
+            return SV('seq', z3.Concat(self.list_as_seq(a), self.list_as_seq(b)), x)
         if op == 'Add' and a.k == 'list' and b.k == 'list':
             return SV('list', self.st.alloc(HList(self.st.heap[a.t].items + self.st.heap[b.t].items)))
         if op == 'BitOr' and a.k == 'dict' and b.k == 'dict':
@@ -201,6 +207,10 @@ class ExprMixin:
             return z3.Const(f'flt_{repr(v.t)}', OPQ)
         if v.k == 'none':
             return z3.Const('py_None', OPQ)
+        if v.k == 'ref':
+            return self.ufunc('of_ref', INT, OPQ)(v.t)
+        if v.k == 'obj':
+            return self.ufunc('of_ref', INT, OPQ)(z3.IntVal(-v.t))
         if v.k == 'const' and isinstance(v.t, str):
             return self.ufunc('of_str', SEQ, OPQ)(seq_of_str(v.t))
         if v.k == 'str':
@@ -327,6 +337,10 @@ class ExprMixin:
             return z3.BoolVal(a.k == b.k)
         if a.k in ('obj', 'list', 'dict') or b.k in ('obj', 'list', 'dict'):
             return z3.BoolVal(a.k == b.k and a.t == b.t)
+        if a.k == 'enumv' or b.k == 'enumv':
+            if {a.k, b.k} <= {'enumv', 'enum'}:
+                return self.as_int(a) == self.as_int(b)
+            return z3.BoolVal(False)
         if a.k == 'enum' or b.k == 'enum' or a.k == 'cls' or b.k == 'cls':
             return z3.BoolVal(a.k == b.k and a.t == b.t)
         if a.k == 'bool' and b.k == 'bool':
@@ -352,6 +366,10 @@ class ExprMixin:
             if a.k == 'bool' and b.k == 'bool':
                 return a.t == b.t
             return self.as_int(a) == self.as_int(b)
+        if a.k == 'enumv' or b.k == 'enumv':
+            if a.k == 'none' or b.k == 'none':
+                return z3.BoolVal(False)
+            return self.as_int(a) == self.as_int(b)
         if a.k == 'enum' and b.k == 'enum':
             if a.t[0] == b.t[0]:
                 return z3.BoolVal(a.t[1] == b.t[1])
@@ -368,6 +386,9 @@ class ExprMixin:
             if len(a.t) != len(b.t):
                 return z3.BoolVal(False)
             return z3.And(*[self.equal(x, y) for x, y in zip(a.t, b.t)]) if a.t else z3.BoolVal(True)
+        if (a.k == 'list' and isinstance(self.st.heap[a.t], HSeqList)) or (b.k == 'list' and isinstance(self.st.heap[b.t], HSeqList)) \
+                or (a.k == 'seq' and b.k == 'list') or (a.k == 'list' and b.k == 'seq'):
+            return self.list_as_seq(a) == self.list_as_seq(b)
         if a.k == 'list' and b.k == 'list':
             ia, ib = self.st.heap[a.t].items, self.st.heap[b.t].items
             if len(ia) != len(ib):
@@ -393,6 +414,15 @@ class ExprMixin:
                ((self.is_str_like(b) or self.is_bytes_like(b)) and a.k in ('tuple', 'list')):
                 return z3.BoolVal(False)
         return self._unsup_eq(a, b)
+
+    def list_as_seq(self, v):
+        if v.k == 'seq':
+            return v.t
+        h = self.st.heap[v.t]
+        if isinstance(h, HSeqList):
+            return h.seq
+        us = [z3.Unit(x.t if x.k == 'ref' else self.as_int(x)) for x in h.items]
+        return z3.Empty(SEQ) if not us else (us[0] if len(us) == 1 else z3.Concat(*us))
 
     def _unsup_eq(self, a, b):
         raise Unsupported(f'== between {a} and {b}')
